@@ -1561,7 +1561,7 @@ _DER = {}
 
 
 def _dfun(decl, i):
-    key = (decl.name(), i)
+    key = (decl.name(), decl.arity(), i)       # the same user-function name may be used with different arities in one process
     if key not in _DER:
         _DER[key] = z3.Function("%s__d%d" % (decl.name(), i), *([R] * decl.arity() + [R]))
     return _DER[key]
